@@ -442,3 +442,109 @@ def _abs(s, bits):
 
 def _absv(v, bits):
     return "W" if v == bits else v
+
+
+# ------------------------------------------------------------------ B-sem: partitioned abstract interpretation (bitsem.py)
+_BITSEM = {}
+
+
+def carrier_widths(prog):
+    ws = set()
+    n = 0
+    for q, f in prog.fns.items():
+        if q.endswith(" as df::bit_value::BitValue>::u8_cast"):
+            ty = f.locals[0]
+            if ty.get("k") in ("int", "uint"):
+                ws.add(ty["bits"])
+                n += 1
+            else:
+                return None, n
+    return tuple(sorted(ws)), n
+
+
+def bitsem_summary(prog):
+    """{'put': out, 'parse': out} with out as bitsem.analyse (cached per program and on disk by the hash of the two bodies)."""
+    key = id(prog)
+    if key in _BITSEM:
+        return _BITSEM[key]
+    import bitsem, hashlib, json, os, engine
+    ws, nimpl = carrier_widths(prog)
+    out = {"widths": ws, "impls": nimpl}
+    for path, kind, adt_name in ((PUT, "put", "df::assembler::Assembler"), (PARSE, "parse", "df::parser::Parser")):
+        f = prog.fn(path)
+        if f is None or not ws:
+            out[kind] = None
+            continue
+        adt = prog.adts.get(adt_name)
+        fields = [x["name"] for x in adt["variants"][0]["fields"]] if adt else []
+        if sorted(fields) != ["data", "offset"]:
+            out[kind] = {"partitions": 0, "asserts_decided": 0, "assert_sites": [], "shift_sites": [], "expected": 8 * sum(ws),
+                         "problems": {"struct": {"first": None, "count": 1, "text": "%s does not have exactly the fields data, offset: %s" % (adt_name, fields)}}}
+            continue
+        order = (fields.index("data"), fields.index("offset"))
+        h = hashlib.sha256((json.dumps(f.rec["blocks"], sort_keys=True) + json.dumps(f.rec["locals"], sort_keys=True) + repr(ws) + repr(order)
+                            + open(bitsem.__file__).read()).encode()).hexdigest()[:24]
+        cpath = os.path.join(engine.CACHE, "bitsem-%s.json" % h)
+        r = None
+        if os.environ.get("VERIF_NOCACHE") != "1" and os.path.exists(cpath):
+            try:
+                r = json.load(open(cpath))
+            except Exception:
+                r = None
+        if r is None:
+            a = bitsem.analyse(prog, path, kind, widths=ws, field_order=order)
+            r = {"partitions": a["partitions"], "asserts_decided": a["asserts_decided"],
+                 "assert_sites": sorted([list(x) for x in a["assert_sites"]], key=str), "shift_sites": sorted(x for x in a["shift_sites"] if x is not None),
+                 "expected": 8 * sum(ws), "problems": {k: {"first": list(v["first"]), "count": v["count"], "text": v["text"]} for k, v in a["problems"].items()}}
+            os.makedirs(engine.CACHE, exist_ok=True)
+            with open(cpath + ".tmp", "w") as fh:
+                json.dump(r, fh)
+            os.replace(cpath + ".tmp", cpath)
+        out[kind] = r
+    _BITSEM[key] = out
+    return out
+
+
+def rule_bitsem(prog, res, rule="B-sem", which=("put", "parse")):
+    """Bit-exactness of put / parse and panic freedom of their interiors, decided per partition (offset mod 8, width, carrier)."""
+    s = bitsem_summary(prog)
+    ws = s["widths"]
+    res.ob(rule, "carriers | every BitValue::ValueType is a primitive integer (widths %s)" % (list(ws) if ws else "?"), bool(ws) and s["impls"] >= 15,
+           "%d impls" % s["impls"], None)
+    ok_all = True
+    for kind in which:
+        r = s.get(kind)
+        path = PUT if kind == "put" else PARSE
+        f = prog.fn(path)
+        if r is None or f is None:
+            res.missing(rule, path)
+            ok_all = False
+            continue
+        res.fn(f)
+        spec = ("the w bits at offset..offset+w are the low w bits of sign_fix_rev(value), most significant first; every other bit of the buffer keeps "
+                "its value; the cursor advances by w; Err(BufferOverflow) exactly when 8*len < offset+w, with nothing written and the cursor unchanged"
+                if kind == "put" else
+                "the result is sign_fix(v, w) with v = the w buffer bits at offset..offset+w, most significant first, zero-extended; the buffer is not "
+                "written; the cursor advances by w; Err(BufferOverflow) exactly when 8*len < offset+w with the cursor unchanged")
+        probs = r["problems"]
+        complete = r["partitions"] == r["expected"] and r["partitions"] > 0
+        res.ob(rule, "%s | all %d partitions (offset mod 8) x (width 1..=W) x (W in %s) were interpreted" % (kind, r["expected"], list(ws)), complete,
+               "%d partitions" % r["partitions"], f.loc)
+        res.ob(rule, "%s | at least one Assert terminator was decided in the interior (vacuity guard)" % kind, r["asserts_decided"] > 0,
+               "%d assert evaluations over %d sites" % (r["asserts_decided"], len(r["assert_sites"])), f.loc)
+        if not probs:
+            res.ob(rule, "%s | %s" % (kind, spec), True, "holds in every partition; %d assert evaluations, all passing" % r["asserts_decided"], f.loc,
+                   sample={"function": path, "partitions": r["partitions"], "assert_sites": len(r["assert_sites"]), "carrier_shift_sites": len(r["shift_sites"])})
+        else:
+            ok_all = False
+            for k, v in sorted(probs.items())[:12]:
+                w_ = v["first"]
+                wit = "first at offset%%8=%s width=%s carrier=%s bits" % tuple(w_) if w_ else ""
+                res.ob(rule, "%s | %s" % (kind, k[:160]), False, "%s; %d partitions affected; %s" % (v["text"][:400], v["count"], wit),
+                       {"file": f.loc["file"], "line": _line_of(v["text"]) or f.loc["line"]})
+    return ok_all
+
+
+def _line_of(text):
+    m = re.search(r"\(line (\d+)\)", text)
+    return int(m.group(1)) if m else None
